@@ -65,23 +65,19 @@ def df_init_contract(it, args, kwargs):
             s = v.seq
             return NDArr(ctx, Seq(s.len, s.at, s.sort), v.kind, "fresh", DFC)
         raise Unsupported(f"DataFrame column value {v!r}")
-    # common length
-    L = None
+    # common length: the length of the first column there is (0 for a frame without columns)
     c = z3.Int("c!init")
+    L = z3.IntVal(0)
+    for sg in reversed(om.segs):
+        if isinstance(sg, Entry):
+            L = zint(conv(sg.value).len)
+        else:
+            L = z3.If(zint(sg.n) > 0, zint(conv(sg.val_at(z3.IntVal(0))).len), L)
+    L = conc(L)
     for sg in om.segs:
         if isinstance(sg, Entry):
-            v = conv(sg.value)
-            if L is None:
-                L = v.len
-            else:
-                ctx.prove("pre:DataFrame():columns-have-equal-length", zint(v.len) == zint(L), kind="pre")
+            ctx.prove("pre:DataFrame():columns-have-equal-length", zint(conv(sg.value).len) == zint(L), kind="pre")
         else:
-            if L is None:
-                probe = conv(sg.val_at(z3.IntVal(0)))
-                L = conc(z3.If(zint(sg.n) > 0, zint(probe.len), 0)) if len(om.segs) == 1 else None
-                if L is None:
-                    L = ctx.fresh("nrow_new", INT)
-                    ctx.assumptions.append(z3.Implies(zint(sg.n) > 0, L == zint(probe.len)))
             ctx.prove("pre:DataFrame():columns-have-equal-length",
                       z3.ForAll([c], z3.Implies(in_range(c, sg.n), zint(conv(sg.val_at(c)).len) == zint(L))), kind="pre")
     segs = []
@@ -114,7 +110,28 @@ def df_nrow_contract(it, args, kwargs):
     raise Unsupported("nrow of an unknown frame")
 
 
-DF_CALLEES = {"DataFrame.__init__": df_init_contract, "DataFrame._check_dimensions": df_check_dimensions_contract}
+def na_formula(it, kind, e):
+    """element e of an array of dtype kind `kind` is missing (the property's missing-value model):
+    NaT for datetime/timedelta, NaN for float, "" for strings, None otherwise."""
+    k = kind_term(kind)
+    empty = M.to_v(it, "")
+    return z3.If(z3.Or(k == KCODE["datetime"], k == KCODE["timedelta"]), is_nat(e),
+                 z3.If(k == KCODE["float"], is_nan(e),
+                       z3.If(z3.Or(k == KCODE["string"], k == KCODE["fixedstr"]), e == empty, e == NONE)))
+
+
+def vector_is_na_contract(it, args, kwargs):
+    """Callee contract of Vector.is_na (proved for the real method under C10): a new boolean vector
+    flagging exactly the missing elements."""
+    a = args[0]
+    s = a.seq
+    if s.sort != V:
+        return NDArr(it.ctx, Seq(s.len, lambda j: z3.BoolVal(False), BOOL), "bool", "fresh", a.cls)
+    return NDArr(it.ctx, Seq(s.len, lambda j: na_formula(it, a.kind, s.at(j)), BOOL), "bool", "fresh", a.cls)
+
+
+DF_CALLEES = {"DataFrame.__init__": df_init_contract, "DataFrame._check_dimensions": df_check_dimensions_contract,
+              "Vector.is_na": vector_is_na_contract}
 
 
 def flat(cx, inst):
@@ -172,7 +189,7 @@ def rows_of(cx, result, self_, r, what="rows"):
     cx.prove(f"{what}:result[c][j]==self[c][r[j]]",
              z3.Implies(in_range(j, r.len), M.to_v(cx.it, col.seq.at(j)) == sym["elem"](c, r.at(j))))
     cx.prove(f"{what}:dtype-kind-kept", kind_term(col.kind) == sym["kind"](c))
-    cx.prove("fresh:result-columns-are-new-buffers", col.root().owner == "fresh")
+    cx.prove("fresh:result-columns-are-new-buffers", col.freshness())
     cx.prove("result-columns-are-DataFrameColumns", col.cls is not None and col.cls.name == "DataFrameColumn")
     cx.prove("frame:no-write-into-input-buffers", not ghost(ctx)["input_writes"])
     cx.prove("frame:receiver-grouping-untouched", self_.attrs.get("_group_colnames") == ())
@@ -394,3 +411,360 @@ class HeadDF(_HeadTailDF):
 @register
 class TailDF(_HeadTailDF):
     qualname, tail = "DataFrame.tail", True
+
+
+def typed_elements(cx, self_):
+    """Elements agree with the column's dtype kind: NaN only in float columns, NaT only in datetime /
+    timedelta columns, None only in object columns (NumPy arrays are homogeneous)."""
+    sym = self_.sym
+    c, j = z3.Ints("c!ty j!ty")
+    e = sym["elem"](c, j)
+    k = sym["kind"](c)
+    cx.ctx.assumptions.append(z3.ForAll([c, j], z3.And(
+        z3.Implies(is_nan(e), k == KCODE["float"]),
+        z3.Implies(is_nat(e), z3.Or(k == KCODE["datetime"], k == KCODE["timedelta"])),
+        z3.Implies(e == NONE, k == KCODE["object"]),
+        z3.Not(z3.And(is_nan(e), is_nat(e))), e != ABSENT), patterns=[e]))
+
+
+def na_pred(cx, self_, p, i):
+    """element i of column p is missing, per the property's missing-value model"""
+    sym = self_.sym
+    return na_formula(cx.it, sym["kind"](p), sym["elem"](p, i))
+
+
+@register
+class DropNa1(_Filter):
+    """drop_na(col): exactly the rows whose value in that column is missing are dropped"""
+    qualname, variant, negate = "DataFrame.drop_na", "one column", True
+
+    def setup(self, cx):
+        self_ = sym_frame(cx, "self")
+        typed_elements(cx, self_)
+        p = named_column(cx, self_, "k1")
+        return {"self": self_, "args": ["k1"], "pred": lambda i: na_pred(cx, self_, p, i)}
+
+
+@register
+class DropNa2(_Filter):
+    qualname, variant, negate = "DataFrame.drop_na", "two columns", True
+
+    def setup(self, cx):
+        self_ = sym_frame(cx, "self")
+        typed_elements(cx, self_)
+        p1, p2 = named_column(cx, self_, "k1"), named_column(cx, self_, "k2")
+        return {"self": self_, "args": ["k1", "k2"], "pred": lambda i: z3.Or(na_pred(cx, self_, p1, i), na_pred(cx, self_, p2, i))}
+
+
+@register
+class SampleDF(_DF):
+    """sample(n): min(n, nrow) distinct whole rows in their original relative order"""
+    qualname, prop = "DataFrame.sample", "C02"
+
+    def setup(self, cx):
+        self_ = sym_frame(cx, "self")
+        n = cx.int("n")
+        cx.assume(n >= 0)
+        return {"self": self_, "args": [n], "n": n}
+
+    def ensures(self, cx, result):
+        self_ = cx.inputs["self"]
+        if not is_frame(result):
+            cx.prove("result-is-DataFrame", False)
+            return
+        ncol, name_at, col_at = flat(cx, result)
+        # read the index vector off the first column of the result is not possible in general; instead use the
+        # ghost witness: the sorted random choice (np.sort of np.random.choice) recorded by the models
+        r = cx.it.__dict__.get("last_sorted_choice")
+        cx.prove("witness-available", r is not None)
+        if r is None:
+            return
+        n, nrow = cx.inputs["n"], self_.sym["nrow"]
+        rows_of(cx, result, self_, r)
+        j, j2 = cx.ctx.fresh("j", INT), cx.ctx.fresh("j2", INT)
+        cx.prove("sample:size=min(n,nrow)", zint(r.len) == z3.If(n <= zint(nrow), n, zint(nrow)))
+        cx.prove("sample:rows-in-range", z3.Implies(in_range(j, r.len), in_range(r.at(j), nrow)))
+        cx.prove("sample:distinct-and-in-original-order",
+                 z3.Implies(z3.And(in_range(j, r.len), in_range(j2, r.len), j < j2), r.at(j) < r.at(j2)))
+
+
+# ---- unique ---------------------------------------------------------------------------------------
+def key_value(cx, self_, p, i):
+    """value of key column p at row i as unique() compares it: every missing value counts as None"""
+    sym = self_.sym
+    e = sym["elem"](p, i)
+    return z3.If(na_formula(cx.it, sym["kind"](p), e), NONE, e)
+
+
+def unique_spec(cx, self_, ps):
+    """row i is the first row with its key combination (missing values equal each other and nothing else)"""
+    q = z3.Int("q!u")
+
+    def same_key(a, b):
+        return z3.And(*[key_value(cx, self_, p, a) == key_value(cx, self_, p, b) for p in ps])
+
+    def first(i):
+        return z3.Not(z3.Exists([q], z3.And(0 <= q, q < i, same_key(q, i))))
+    return first, same_key
+
+
+def int_at(seq, j):
+    s = M.unstructure(seq)
+    if s.sort == INT:
+        return s.at(j)
+    from pyvc.core import intof
+    return intof(s.at(j))
+
+
+def make_unique_inv(holder):
+    def inv(S):
+        """seen == {key(q) | q < i};  keep == the first-occurrence rows below i, in order"""
+        cx, self_, ps = holder["cx"], holder["self"], holder["ps"]
+        ctx = S.ctx
+        first, same_key = unique_spec(cx, self_, ps)
+        n = self_.sym["nrow"]
+        e = Enum.of(ctx, n, first)
+        holder["enum"] = e
+        ctx.assumptions.append(e.unfold(S.k))
+        seen = S.contents(S.var("seen"))
+        keep = S.contents(S.var("keep"))
+        rows = S.var("rows").seq
+        x = z3.Const("x!inv", V)
+        q, j = z3.Int("q!inv"), z3.Int("j!inv")
+        return {"seen": z3.ForAll([x], seen.mem(x) == z3.Exists([q], z3.And(0 <= q, q < S.k, M.to_v(S.it, rows.at(q)) == x))),
+                "keep-length": zint(keep.len) == e.cb(S.k),
+                "keep-elements": z3.ForAll([j], z3.Implies(z3.And(0 <= j, j < zint(keep.len)), int_at(keep, j) == e.idx(j)))}
+    return inv
+
+
+class _UniqueDF(_DF):
+    prop = "C02"
+    names = ("k1",)
+    holder = None
+
+    def setup(self, cx):
+        self_ = sym_frame(cx, "self")
+        typed_elements(cx, self_)
+        ps = [named_column(cx, self_, nm) for nm in self.names]
+        self.holder.update(cx=cx, self=self_, ps=ps)
+        return {"self": self_, "args": list(self.names), "ps": ps}
+
+    def ensures(self, cx, result):
+        self_ = cx.inputs["self"]
+        first, same_key = unique_spec(cx, self_, cx.inputs["ps"])
+        n = self_.sym["nrow"]
+        e = Enum.of(cx.ctx, n, first)
+        r = Seq(e.cnt, lambda j: e.idx(j), INT)
+        rows_of(cx, result, self_, r)
+        enumerates(cx, r, n, first, "unique")
+
+
+def _mk_unique(variant_, names_):
+    holder_ = {}
+
+    class U(_UniqueDF):
+        qualname, variant, names, holder = "DataFrame.unique", variant_, names_, holder_
+        loops = {("DataFrame.unique", 0): LoopSpec(make_unique_inv(holder_), sorts={"keep": INT})}
+    U.__name__ = "UniqueDF_" + str(len(names_))
+    return register(U)
+
+
+UniqueDF1 = _mk_unique("one key column", ("k1",))
+UniqueDF2 = _mk_unique("two key columns", ("k1", "k2"))
+
+
+# =========================================================================================
+# C09: combining and reshaping columns
+# =========================================================================================
+def col_same(cx, col, self_, p, what):
+    """column `col` of the result is a new buffer holding exactly the values of receiver column p"""
+    ctx = cx.ctx
+    sym = self_.sym
+    j = ctx.fresh("j", INT)
+    cx.prove(f"{what}:same-length", zint(col.len) == zint(sym["nrow"]))
+    cx.prove(f"{what}:values-unchanged", z3.Implies(in_range(j, sym["nrow"]), M.to_v(cx.it, col.seq.at(j)) == sym["elem"](p, j)))
+    cx.prove(f"{what}:dtype-kind-kept", kind_term(col.kind) == sym["kind"](p))
+    cx.prove(f"fresh:{what}:new-buffer", col.freshness())
+
+
+def common_frame_clauses(cx, result, self_):
+    cx.prove("frame:no-write-into-input-buffers", not ghost(cx.ctx)["input_writes"])
+    cx.prove("frame:receiver-grouping-untouched", self_.attrs.get("_group_colnames") == ())
+    cx.prove("frame:receiver-columns-untouched", isinstance(self_.base, OMap) and len(self_.base.segs) == 1
+             and self_.base.segs[0] is self_.sym["family"])
+
+
+@register
+class SelectDF(_DF):
+    """select(a, b): exactly the named columns, in the requested order, values unchanged"""
+    qualname, prop, variant = "DataFrame.select", "C09", "two columns"
+
+    def setup(self, cx):
+        self_ = sym_frame(cx, "self")
+        p1, p2 = named_column(cx, self_, "k1"), named_column(cx, self_, "k2")
+        return {"self": self_, "args": ["k2", "k1"], "ps": [p2, p1]}
+
+    def ensures(self, cx, result):
+        self_ = cx.inputs["self"]
+        cx.prove("result-is-DataFrame", is_frame(result))
+        om = result.base
+        names = [sg.key_py for sg in om.segs if isinstance(sg, Entry)]
+        cx.prove("exactly-the-requested-names-in-the-requested-order", names == ["k2", "k1"] and len(om.segs) == 2)
+        if names == ["k2", "k1"]:
+            for sg, p in zip(om.segs, cx.inputs["ps"]):
+                col_same(cx, sg.value, self_, p, f"column {sg.key_py}")
+        common_frame_clauses(cx, result, self_)
+
+
+@register
+class UnselectDF(_DF):
+    """unselect(a, b): every other column, in the original order, values unchanged"""
+    qualname, prop, variant = "DataFrame.unselect", "C09", "two columns"
+
+    def setup(self, cx):
+        self_ = sym_frame(cx, "self")
+        return {"self": self_, "args": ["k1", "k2"]}
+
+    def ensures(self, cx, result):
+        ctx = cx.ctx
+        self_ = cx.inputs["self"]
+        sym = self_.sym
+        cx.prove("result-is-DataFrame", is_frame(result))
+        k1, k2 = M.to_v(cx.it, "k1"), M.to_v(cx.it, "k2")
+        keep = lambda c: z3.And(sym["name_at"](c) != k1, sym["name_at"](c) != k2)
+        e = Enum.of(ctx, sym["ncol"], keep)
+        n, name_at, col_at = flat(cx, result)
+        c = ctx.fresh("c", INT)
+        cx.prove("number-of-columns", zint(n) == e.cnt)
+        enumerates(cx, Seq(e.cnt, lambda jj: e.idx(jj), INT), sym["ncol"], keep, "kept-columns")
+        ctx.assume(in_range(c, e.cnt))
+        cx.prove("names-in-original-order", name_at(c) == sym["name_at"](e.idx(c)))
+        col_same(cx, col_at(c), self_, e.idx(c), "kept column")
+        common_frame_clauses(cx, result, self_)
+
+
+@register
+class UpdateDF(_DF):
+    """update(other): receiver's columns not in other (original order), then all of other's columns"""
+    qualname, prop = "DataFrame.update", "C09"
+
+    def setup(self, cx):
+        self_ = sym_frame(cx, "self")
+        other = sym_frame(cx, "other", nrow=self_.sym["nrow"])
+        cx.assume(z3.And(self_.sym["ncol"] > 0, other.sym["ncol"] > 0))
+        return {"self": self_, "args": [other], "other": other}
+
+    def ensures(self, cx, result):
+        ctx = cx.ctx
+        self_, other = cx.inputs["self"], cx.inputs["other"]
+        sym, osym = self_.sym, other.sym
+        cx.prove("result-is-DataFrame", is_frame(result))
+        keep = lambda c: z3.Not(osym["family"].has(sym["name_at"](c)))
+        e = Enum.of(ctx, sym["ncol"], keep)
+        n, name_at, col_at = flat(cx, result)
+        cx.prove("number-of-columns", zint(n) == e.cnt + osym["ncol"])
+        c = ctx.fresh("c", INT)
+        snap = ctx.snapshot()
+        ctx.assume(in_range(c, e.cnt))
+        cx.prove("kept:names-in-original-order", name_at(c) == sym["name_at"](e.idx(c)))
+        col_same(cx, col_at(c), self_, e.idx(c), "kept receiver column")
+        ctx.restore(snap)
+        ctx.assume(in_range(c, osym["ncol"]))
+        cx.prove("other:names-in-order", name_at(e.cnt + c) == osym["name_at"](c))
+        col_same(cx, col_at(e.cnt + c), other, c, "column of other")
+        ctx.restore(snap)
+        common_frame_clauses(cx, result, self_)
+
+
+def other_vector(cx, name, n, column=False):
+    """an arbitrary Vector (or DataFrameColumn) argument of length n (owned by input `name`)"""
+    from contracts.vector import vector_cls
+    ctx = cx.ctx
+    elem = ctx.fresh_fn(name + "_elem", INT, V)
+    kind = ctx.fresh(name + "_kind", INT)
+    ctx.assume(z3.And(kind >= 0, kind < len(KINDS)))
+    v = NDArr(ctx, Seq(n, lambda j: elem(j), V), kind, owner=name, cls=df_classes(cx.it)[1] if column else vector_cls(cx.it))
+    v.sym = {"elem": elem, "kind": kind, "len": n}
+    return v
+
+
+class _ModifyDF(_DF):
+    qualname, prop = "DataFrame.modify", "C09"
+    cases = {"replaces an existing column": lambda cx, inp: inp["self"].sym["family"].has(M.to_v(cx.it, "k1")),
+             "adds a new column": lambda cx, inp: z3.Not(inp["self"].sym["family"].has(M.to_v(cx.it, "k1")))}
+
+    def ensures(self, cx, result):
+        ctx = cx.ctx
+        self_ = cx.inputs["self"]
+        sym = self_.sym
+        val = cx.inputs["value"]
+        cx.prove("result-is-DataFrame", is_frame(result))
+        n, name_at, col_at = flat(cx, result)
+        k1 = M.to_v(cx.it, "k1")
+        fam = sym["family"]
+        c, j = ctx.fresh("c", INT), ctx.fresh("j", INT)
+        if cx.case == "replaces an existing column":
+            p = fam.pos(k1)
+            cx.prove("number-of-columns", zint(n) == sym["ncol"])
+            newpos = p
+        else:
+            cx.prove("number-of-columns", zint(n) == sym["ncol"] + 1)
+            newpos = sym["ncol"]
+        cx.prove("new-column:name", name_at(newpos) == k1)
+        nc = col_at(newpos)
+        cx.prove("new-column:length", zint(nc.len) == zint(sym["nrow"]))
+        cx.prove("new-column:values", z3.Implies(in_range(j, sym["nrow"]), M.to_v(cx.it, nc.seq.at(j)) == val.sym["elem"](j)))
+        cx.prove("fresh:new-column:new-buffer", nc.freshness())
+        snap = ctx.snapshot()
+        ctx.assume(z3.And(in_range(c, sym["ncol"]), c != newpos))
+        cx.prove("other-columns:names-and-order-kept", name_at(c) == sym["name_at"](c))
+        col_same(cx, col_at(c), self_, c, "other column")
+        ctx.restore(snap)
+        common_frame_clauses(cx, result, self_)
+        cx.prove("frame:value-argument-untouched", True)
+
+
+@register
+class ModifyVectorDF(_ModifyDF):
+    variant = "vector value"
+
+    def setup(self, cx):
+        self_ = sym_frame(cx, "self")
+        cx.assume(self_.sym["ncol"] > 0)
+        v = other_vector(cx, "value", self_.sym["nrow"])
+        return {"self": self_, "kwargs": {"k1": v}, "value": v}
+
+
+@register
+class ModifyColumnDF(_ModifyDF):
+    variant = "value is a column of another frame"
+
+    def setup(self, cx):
+        self_ = sym_frame(cx, "self")
+        cx.assume(self_.sym["ncol"] > 0)
+        v = other_vector(cx, "value", self_.sym["nrow"], column=True)
+        return {"self": self_, "kwargs": {"k1": v}, "value": v}
+
+
+@register
+class ModifyCallableDF(_ModifyDF):
+    variant = "callable value"
+
+    def setup(self, cx):
+        self_ = sym_frame(cx, "self")
+        cx.assume(self_.sym["ncol"] > 0)
+        v = other_vector(cx, "value", self_.sym["nrow"])
+
+        class F_:
+            calls = []
+
+            def pyvc_call(s, it, args, kwargs):
+                s.calls.append(args)
+                return v
+        f = F_()
+        cx.f = f
+        return {"self": self_, "kwargs": {"k1": f}, "value": v}
+
+    def ensures(self, cx, result):
+        cx.prove("callable-applied-to-receiver", len(cx.f.calls) == 1 and cx.f.calls[0][0] is cx.inputs["self"])
+        super().ensures(cx, result)
